@@ -131,6 +131,7 @@ PROPS = {
 _IS_TB = ["Go runtime: channels are FIFO with the stated capacity; select picks any ready case; a mutex-protected section is atomic w.r.t. other sections of the same mutex (the model's operation slots); context cancellation is monotone and reaches child contexts",
           "goroutine park states from runtime.Stack identify blocked operations (quiescence harness); the subset-construction explorer in Driver.lean uses the same step function the theorems are about",
           "messages and metadata are opaque identities in the stream models (content equality through Clone/Copy is C18, placement C06)"]
+_E2E_TEXT = " End-to-end composition of the two HTTP stream models (HttpCompose): with the transport delivering any prefix of what the server model wrote, the client model's delivered messages are a prefix of the handler's successful sends; io.EOF implies the handler returned nil and every message arrived; the trailer status held by the client is the code of the handler's return value."
 _HU_TEXT = " HTTP unary end to end (handleMethod + UnaryServerTransportStream + Channel.Invoke) as the functional model HttpUnary: both metadata targets and the caller's outcome proved for every handler program and return value; tied by HU scripts through the real Server and Channel over the in-memory transport, every line reproduced exactly by the model."
 _IS_NOTE = "Trusted: Lean kernel; extractor (channel capacities, frame order); harness (goroutine-park detector) + driver explorer; Go channel/select/mutex/context semantics at the granularity of the model's actions. The HTTP transport's client stream and the unary paths are tied by correspondence (scripts and end-to-end runs), their framing by the C07 theorems."
 PROPS.update({
@@ -139,7 +140,7 @@ PROPS.update({
   "partial": ["HTTP streams: the client side is the HttpClientStream transition system (C01_http_response_prefix/_complete for response-streaming calls, tied by HC scripts in which the harness plays the transport); the byte level is the Framing model (C07); the server side (serverStream) and single-response calls after a protocol violation are explored only",
               "byte-for-byte content equality is protobuf's: exercised (all field kinds, empty, zero-length, up to 64 KiB quick / 8 MiB thorough), not proved",
               "cross-talk freedom of concurrent RPCs is a theorem only about the model's per-call state (C01_isolation); on the implementation it is exercised with tagged concurrent calls"],
-  "level_text": "Proof: invariants of the InprocStream transition system by induction over ALL action sequences (any number of messages, any interleaving of client sender / client receiver / handler / cancellation instant, arbitrary capacities): what the handler's RecvMsg returned is always a prefix of what the client handed to SendMsg and equals it when the handler sees io.EOF (C01_request_prefix/_complete); what the client's RecvMsg returned is always a prefix of what the handler handed to SendMsg and equals it when the client sees io.EOF with a live context (C01_response_prefix/_complete); a step of one call never touches another call's state (C01_isolation). Tie: capacities regenerated from source; quiescence-sequenced scripts on the real channel accepted by a subset-construction explorer over the same step function; prefix/equality oracle on every script for both transports; content and isolation runs end to end." + _HS_TEXT,
+  "level_text": "Proof: invariants of the InprocStream transition system by induction over ALL action sequences (any number of messages, any interleaving of client sender / client receiver / handler / cancellation instant, arbitrary capacities): what the handler's RecvMsg returned is always a prefix of what the client handed to SendMsg and equals it when the handler sees io.EOF (C01_request_prefix/_complete); what the client's RecvMsg returned is always a prefix of what the handler handed to SendMsg and equals it when the client sees io.EOF with a live context (C01_response_prefix/_complete); a step of one call never touches another call's state (C01_isolation). Tie: capacities regenerated from source; quiescence-sequenced scripts on the real channel accepted by a subset-construction explorer over the same step function; prefix/equality oracle on every script for both transports; content and isolation runs end to end." + _HS_TEXT + _E2E_TEXT,
   "level_note": _IS_NOTE,
   "assumptions": ["every access to shared stream state happens under the mutex the model attributes it to, or is a channel operation"],
  },
@@ -147,7 +148,7 @@ PROPS.update({
   "fact_files": ["inprocgrpc/in_process.go", "httpgrpc/server.go", "httpgrpc/client.go"], "trusted_base": _HS_TB + _IS_TB + ["grpc status package (status.Convert / FromError / FromContextError)", "real grpc.Server/ClientConn over bufconn as the reference for what the standard transport reports (sanitising)"],
   "partial": ["HTTP rendering of the status (X-GRPC-Status / HttpTrailer) is proved for codes in C14 and for framing/truncation in C07; the X-GRPC-Details transport of unary error details is proved byte-exact (C02_details_b64_roundtrip, sites regenerated); the message part of X-GRPC-Status is the C14 round trip; the marshalling of the detail messages themselves (protobuf) and net/http's header transport are external and compared end to end with the bufconn reference",
               "the HTTP server side: handleStream is the HttpServerStream model (status code of the trailer proved; message and details are carried opaquely), handleMethod rendering is explored end to end; the HTTP client stream model assumes of the transport that the body ends right after the trailer frame and that body reads fail once the request context is done (as net/http does)"],
-  "level_text": "Proof: for every reachable state of the InprocStream system and every RecvMsg completion with a live context, the terminal outcome is the handler's — io.EOF iff the handler returned nil (and then every data frame was consumed), otherwise the handler's error with context errors translated to Canceled/DeadlineExceeded; the only error the library synthesises is Internal for a second message on a single-response method (C02_client_status_eq_handler, C02_eof_only_if_handler_ok), by the error-frame invariants (an error frame carries exactly the handler's return value, is enqueued unless the context ended, and closes the client that took it). Tie: frame order regenerated; scripts with handler returns nil / status / plain / context errors before, between and after messages accepted by the explorer; end-to-end statuses (19 codes x 12 message shapes x 0..2 details, three kinds, both transports) compared with the handler's status and with the bufconn reference modulo its sanitising; every truncation offset (C07)." + _HS_TEXT + _HU_TEXT,
+  "level_text": "Proof: for every reachable state of the InprocStream system and every RecvMsg completion with a live context, the terminal outcome is the handler's — io.EOF iff the handler returned nil (and then every data frame was consumed), otherwise the handler's error with context errors translated to Canceled/DeadlineExceeded; the only error the library synthesises is Internal for a second message on a single-response method (C02_client_status_eq_handler, C02_eof_only_if_handler_ok), by the error-frame invariants (an error frame carries exactly the handler's return value, is enqueued unless the context ended, and closes the client that took it). Tie: frame order regenerated; scripts with handler returns nil / status / plain / context errors before, between and after messages accepted by the explorer; end-to-end statuses (19 codes x 12 message shapes x 0..2 details, three kinds, both transports) compared with the handler's status and with the bufconn reference modulo its sanitising; every truncation offset (C07)." + _HS_TEXT + _E2E_TEXT + _HU_TEXT,
   "level_note": _IS_NOTE,
   "assumptions": ["status messages are compared modulo the U+FFFD sanitising the standard transport applies; a delivery equal to the handler's own status is accepted where the reference loses details"],
  },
